@@ -25,6 +25,9 @@ def make_spec(rng, D=None, geom=None, target=None, mode=None, cons=None, opt_loc
             "x0_unit": [round(rng.uniform(-0.9, 0.9), 3) for _ in range(D)],
             "w": [rng.choice([1.0, 1.0, 4.0, 0.25]) for _ in range(D)],
             "options": dict(options or {})}
+    if mode == "he":
+        # reported SDs that differ from call to call at the same point (e.g. the standard error of a Monte-Carlo batch)
+        spec["sd_jitter"] = rng.random() < 0.6
     return spec
 
 
@@ -32,7 +35,7 @@ def geometry(spec):
     """Original-space bounds and start point for a spec."""
     D, g = spec["D"], spec["geom"]
     inf = math.inf
-    if g in ("box", "x0_on_bound", "x0_absent"):
+    if g in ("box", "x0_on_bound", "x0_absent", "x0_near_bound"):
         lb, ub, plb, pub = [-4.0] * D, [6.0] * D, [-2.0] * D, [3.0] * D
     elif g == "tight":
         lb, ub = [-3.0] * D, [5.0] * D
@@ -69,6 +72,14 @@ def geometry(spec):
         x0[0] = lb[0]
         if D > 1:
             x0[-1] = ub[-1]
+    if g in ("x0_near_bound", "logdec") and spec.get("x0_near"):
+        # start points between the plausible box and a hard bound, a given fraction of the hard range away from it (per coordinate:
+        # +f = below the upper bound, -f = above the lower bound, 0 = leave)
+        for i, f in enumerate(spec["x0_near"][:D]):
+            if f > 0:
+                x0[i] = ub[i] - f * (ub[i] - lb[i])
+            elif f < 0:
+                x0[i] = lb[i] - f * (ub[i] - lb[i])
     c = [from_unit(spec["c_unit"][i], i) for i in range(D)]
     if spec["opt_loc"] == "on_bound":
         for i in range(D):
@@ -100,7 +111,7 @@ def build(spec, fault=None):
     logc = [is_log_coord(lb, ub, plb, pub, i) for i in range(D)]
     scale = np.array([(math.log(pub[i]) - math.log(plb[i])) if logc[i] else (pub[i] - plb[i]) for i in range(D)])
     mode, noise, kind = spec["mode"], spec["noise"], spec["target"]
-    calls = {"n": 0, "xs": [], "ys": []}
+    calls = {"n": 0, "xs": [], "ys": [], "rets": {}}       # rets: call index -> (value, sd) exactly as the target returned them
 
     def z_of(x):
         x = np.asarray(x, dtype=float).ravel()
@@ -137,7 +148,11 @@ def build(spec, fault=None):
         calls["ys"].append(y)
         if mode == "he":
             sd = ys * noise * (1.0 + 0.5 * abs(math.sin(float(np.sum(x)))))
+            if spec.get("sd_jitter"):
+                sd *= 1.0 + 0.4 * ((k * 0.6180339887) % 1.0)      # deterministic in the call index, no draw from numpy's generator
+            calls["rets"][k] = (y, sd)
             return y, sd
+        calls["rets"][k] = (y, None)
         return y
 
     cons_fn = None
@@ -259,3 +274,16 @@ def small_options(rng, D, mode, quick=True):
     if rng.random() < 0.12:
         o["noise_size"] = rng.choice([1e-3, 0.5, 1.0])          # basic option: global noise estimate (a scalar)
     return o
+
+
+def boolean_options(skip=("specify_target_noise", "uncertainty_handling", "plot", "fit_lik")):
+    """(name, default) of every boolean option in the two option files of the repository under test."""
+    import os, re
+    root = os.path.join(os.environ.get("VERIF_REPO", "/repo"), "pybads/bads/option_configs")
+    out = []
+    for fn in ("basic_bads_options.ini", "advanced_bads_options.ini"):
+        for line in open(os.path.join(root, fn)):
+            m = re.match(r"^(\w+)\s*=\s*(True|False)\b", line)
+            if m and m.group(1) not in skip:
+                out.append((m.group(1), m.group(2) == "True"))
+    return out
